@@ -29,6 +29,8 @@ def run(rep, tier):
                         'one entry per character; line table first'),
         ('ERR-position', 'error functions: (None, None) iff len(text) <= pos; else line/col of pos; index = pos'),
         ('FARTHEST', 'Choice reports the farthest failure position, first option winning ties'),
+        ('FINALIZE-exits', 'PartialParseError.last_position is built from the position where the match ended (index, and the '
+                           'table entries at that index) - not from a position moved afterwards'),
         ('TABLE-per-call', 'the line/column tables are computed from the text of the call, not taken from a store '
                            'that outlives it'),
     ]:
@@ -47,7 +49,7 @@ def run(rep, tier):
         rep.obligations += a + b
         rep.discharged += a + b - len([1 for r, _ in found if r in ('EXCERPT-bounds', 'EXCERPT-caret', 'LINECOL-map')])
         for rule, msg in found:
-            if rule in ('EXCERPT-bounds', 'EXCERPT-caret', 'LINECOL-map', 'TABLE-per-call'):
+            if rule in ('EXCERPT-bounds', 'EXCERPT-caret', 'LINECOL-map', 'TABLE-per-call', 'FINALIZE-exits'):
                 rep.add(Finding(rule, f'{rel}:runtime', '', msg, f'{rel} ({what})'))
     rep.count('arithmetic obligations', nob)
     rep.floor('runtime copies analysed', rep.instances.get('runtime copies analysed', 0), 3)
